@@ -23,7 +23,20 @@ const (
 	TFloat       // nested paragraph, out of flow
 	TAbs         // nested paragraph, out of flow
 	TBlockIn     // block inside an inline: nested paragraph, in flow
+	TPageCount   // <span class=pcK></span> whose ::before is text made of counter(pages): one unbreakable word whose length changes between pagination rounds
 )
+
+// forms of the generated text of a TPageCount item (Mode selects one); "0" in the first
+// pagination round, the number of pages afterwards
+var PageCountContent = []string{
+	"counter(pages, upper-roman)",
+	"counter(pages, upper-roman) counter(pages, lower-roman)",
+	"counter(pages, lower-alpha) counter(pages, upper-roman) counter(pages)",
+}
+
+// PageCountMark stands for the generated text of a TPageCount item in the model and in the
+// observed lines (the harness replaces the text of the ::before box by it)
+const PageCountMark = "#"
 
 type TItem struct {
 	Kind   int
@@ -32,8 +45,11 @@ type TItem struct {
 	Kids   []*TItem
 	Para   *TPara
 	Hidden bool // visibility: hidden (TSpan)
+	Vis    int  // visibility set on the span: 0 not set (or Hidden), 1 hidden, 2 visible, 3 collapse
 	Rel    bool // position: relative (TSpan)
 }
+
+var VisNames = []string{"", "hidden", "visible", "collapse"}
 
 type TPara struct {
 	ID      int
@@ -42,6 +58,7 @@ type TPara struct {
 	InFlow  bool   // takes part in the document-order check
 	Repeat  bool   // table header / footer cell: repeated on every page of the table
 	Style   string // extra declarations
+	Vis     int    // visibility set on the paragraph's element (as TItem.Vis)
 	Tag     string
 	Covered bool     // inside a box with an explicit height (excluded by the quantifier)
 	Ctx     []string // structural context: own kind and the kinds of the enclosing paragraphs
@@ -77,6 +94,8 @@ type TextDoc struct {
 	Paras        []*TPara // all paragraphs by ID
 	Tags         map[string]bool
 	BodyMode     int
+	// which PageCountContent the TPageCount items show
+	PageCountForm int
 }
 
 type tgen struct {
@@ -91,6 +110,22 @@ type tgen struct {
 	short  bool // many one-line blocks (cannot be broken inside: breaks fall between siblings)
 	shortN int  // shortN in shortN+1 in-flow blocks are one-liners
 	oof    int  // 1 in `oof` block-level children is an out-of-flow box (0 = none)
+	vis    bool // visibility is set on many boxes, hidden ancestors with visible descendants
+	decor  bool // containers of blocks carry bottom (and top) padding / borders of different widths
+	pagec  bool // the flow contains generated text that depends on the number of pages
+}
+
+// visibility for a box: mostly hidden on the way down, set back to visible below
+func (g *tgen) visValue(den int) int {
+	r := g.r
+	if !g.vis {
+		den *= 3
+	}
+	if !r.Chance(1, den) {
+		return 0
+	}
+	g.tags["visibility"] = true
+	return vlib.Pick(r, []int{1, 1, 1, 2, 2, 3})
 }
 
 var wordChars = []rune("abcdefghijklmnopqrstuvwxyzABCDEFGHIJKLMNOPQRSTUVWXYZ0123456789")
@@ -175,6 +210,7 @@ func (g *tgen) newPara(mode int, inflow bool, depth int) *TPara {
 	p := &TPara{ID: len(g.d.Paras), Mode: mode, InFlow: inflow, Tag: "div"}
 	p.Ctx = append([]string{}, g.ctx...)
 	g.d.Paras = append(g.d.Paras, p)
+	p.Vis = g.visValue(3)
 	p.Items = g.items(mode, depth, inflow)
 	return p
 }
@@ -183,7 +219,17 @@ func (g *tgen) items(mode, depth int, inflow bool) []*TItem {
 	r := g.r
 	var out []*TItem
 	for i, n := 0, r.Range(1, 5); i < n && g.n < g.max; i++ {
-		switch k := r.Intn(20); {
+		if g.pagec && r.Chance(1, 6) {
+			out = append(out, &TItem{Kind: TPageCount, Mode: mode})
+			g.n += 4
+			g.tags["page-count-item"] = true
+			continue
+		}
+		k := r.Intn(20)
+		if g.pagec && (k == 16 || k == 17) {
+			k = 0
+		}
+		switch {
 		case k < 10 || depth >= 3:
 			out = append(out, &TItem{Kind: TText, Mode: mode, Text: g.text()})
 		case k < 14:
@@ -192,8 +238,7 @@ func (g *tgen) items(mode, depth int, inflow bool) []*TItem {
 			if it.Mode >= 0 {
 				m = it.Mode
 			}
-			if r.Chance(1, 12) {
-				it.Hidden = true
+			if it.Vis = g.visValue(3); it.Vis == 1 || it.Vis == 3 {
 				g.tags["hidden"] = true
 			}
 			if r.Chance(1, 12) {
@@ -308,6 +353,25 @@ func (g *tgen) blockStyle() string {
 	return strings.Join(st, ";")
 }
 
+// style of a container of blocks (div / ul): blockStyle plus visibility and -- often in the
+// decor profile -- top / bottom padding and borders drawn independently, from a few pixels to
+// more than a line (the content of the container can end in the decoration-sized window above
+// the page bottom: inFlowLayout then lays it out a second time)
+func (g *tgen) containerStyle() string {
+	r := g.r
+	st := g.blockStyle()
+	if v := g.visValue(3); v != 0 {
+		st = joinStyle(st, "visibility:"+VisNames[v])
+	}
+	if (g.decor && r.Chance(4, 5)) || r.Chance(1, 12) {
+		pt, pb := vlib.Pick(r, []int{0, 0, 3, 5, 10}), vlib.Pick(r, []int{0, 5, 10, 15, 20, 30})
+		bt, bb := vlib.Pick(r, []int{0, 0, 2, 5, 10, 20}), vlib.Pick(r, []int{0, 2, 5, 10, 20, 30})
+		st = joinStyle(st, fmt.Sprintf("padding-top:%dpx;padding-bottom:%dpx;border-style:solid;border-width:%dpx 0 %dpx 0", pt, pb, bt, bb))
+		g.tags["container-decoration"] = true
+	}
+	return st
+}
+
 // a block-level out-of-flow box: a float or an absolutely positioned box that is a
 // sibling of the blocks around it (not part of a line)
 func (g *tgen) oofNode() *TNode {
@@ -356,6 +420,9 @@ func (g *tgen) node(depth int) *TNode {
 	if depth >= 2 && k >= 12 {
 		k = r.Intn(12)
 	}
+	if g.decor && depth == 0 && r.Chance(1, 2) {
+		k = 12 // a run of decorated containers with a few short blocks each
+	}
 	switch {
 	case k < 12:
 		m := g.d.BodyMode
@@ -369,7 +436,7 @@ func (g *tgen) node(depth int) *TNode {
 		p.Tag = "div" // <p>/<h2> would be closed by the parser at a nested <div>
 		return &TNode{Kind: NPara, Para: p}
 	case k < 15:
-		n := &TNode{Kind: NDiv, Style: g.blockStyle()}
+		n := &TNode{Kind: NDiv, Style: g.containerStyle()}
 		for i, m := 0, r.Range(1, 3); i < m; i++ {
 			n.Kids = append(n.Kids, g.node(depth+1))
 		}
@@ -411,7 +478,7 @@ func (g *tgen) node(depth int) *TNode {
 		g.tags["table"] = true
 		return n
 	default:
-		n := &TNode{Kind: NList, Style: g.blockStyle()}
+		n := &TNode{Kind: NList, Style: g.containerStyle()}
 		for i, m := 0, r.Range(1, 4); i < m; i++ {
 			p := g.newPara(g.d.BodyMode, true, 1)
 			p.Tag = "li"
@@ -466,6 +533,36 @@ func GenerateText(r *vlib.Rng) *TextDoc {
 			g.oof = vlib.Pick(r, []int{4, 8})
 		}
 	}
+	if r.Chance(1, 3) {
+		g.vis = true
+		g.tags["profile-visibility"] = true
+	}
+	if r.Chance(1, 4) {
+		// decorated containers whose content ends near the page bottom: short lines of blocks,
+		// pages of a few lines
+		g.decor = true
+		g.tags["profile-decor"] = true
+		if !g.short {
+			g.short, g.shortN = true, 2
+		}
+		d.FontSize, d.PageH = 20, vlib.Pick(r, []int{80, 100, 120, 150})
+		cont = 12
+		if g.max < 200 {
+			g.max = r.Range(200, 500)
+		}
+	}
+	if r.Chance(1, 5) {
+		// generated text that depends on counter(pages): the layout is repeated until the
+		// page count is stable, pages whose content did not change are reused
+		g.pagec = true
+		g.oof = 0 // in-flow content only: see notes/C02.md (remainders of broken out-of-flow boxes under repagination)
+		d.PageCountForm = r.Intn(len(PageCountContent))
+		g.tags["profile-page-count"] = true
+		if g.max < 250 {
+			g.max = r.Range(250, 600)
+		}
+		cont = 12
+	}
 	for len(d.Nodes) == 0 || (g.n < g.max && r.Chance(cont-1, cont)) {
 		d.Nodes = append(d.Nodes, g.node(0))
 	}
@@ -495,6 +592,8 @@ func itemsHTML(sb *strings.Builder, items []*TItem) {
 			}
 			if it.Hidden {
 				st = append(st, "visibility:hidden")
+			} else if it.Vis != 0 {
+				st = append(st, "visibility:"+VisNames[it.Vis])
 			}
 			if it.Rel {
 				st = append(st, "position:relative;top:2px")
@@ -504,6 +603,8 @@ func itemsHTML(sb *strings.Builder, items []*TItem) {
 			sb.WriteString("</span>")
 		case TBr:
 			sb.WriteString("<br>")
+		case TPageCount:
+			sb.WriteString(`<span class="pc"></span>`)
 		case TInlineBlock:
 			paraHTML(sb, it.Para, "span", "display:inline-block")
 		case TFloat, TAbs:
@@ -515,6 +616,9 @@ func itemsHTML(sb *strings.Builder, items []*TItem) {
 }
 
 func paraHTML(sb *strings.Builder, p *TPara, tag, extra string) {
+	if p.Vis != 0 {
+		extra = joinStyle(extra, "visibility:"+VisNames[p.Vis])
+	}
 	fmt.Fprintf(sb, `<%s id="t%d" style="%s">`, tag, p.ID, joinStyle(extra, p.Style))
 	itemsHTML(sb, p.Items)
 	fmt.Fprintf(sb, "</%s>", tag)
@@ -570,12 +674,34 @@ func (d *TextDoc) HTML() string {
 	fmt.Fprintf(&sb, "<html><head><style>\n@page { size: %dpx %dpx; margin: %dpx }\n", d.PageW+2*d.Margin, d.PageH+2*d.Margin, d.Margin)
 	fmt.Fprintf(&sb, "html,body{margin:0;padding:0}\nbody{font:%dpx/%dpx Ahem;white-space:%s}\np,h2,ul{margin:0}\nh2{font-size:inherit;font-weight:inherit}\nul{padding-left:20px}\ntd{padding:0;vertical-align:top}\ntable{border-spacing:0}\n",
 		d.FontSize, d.FontSize, WsNames[d.BodyMode])
+	if d.hasPageCount() {
+		// one word that is never broken (an emergency break would show the mark twice)
+		fmt.Fprintf(&sb, ".pc::before{content:%s;white-space:nowrap;overflow-wrap:normal}\n", PageCountContent[d.PageCountForm%len(PageCountContent)])
+	}
 	sb.WriteString("</style></head><body>")
 	for _, n := range d.Nodes {
 		nodeHTML(&sb, n)
 	}
 	sb.WriteString("</body></html>")
 	return sb.String()
+}
+
+func (d *TextDoc) hasPageCount() bool {
+	var walk func(its []*TItem) bool
+	walk = func(its []*TItem) bool {
+		for _, it := range its {
+			if it.Kind == TPageCount || walk(it.Kids) || (it.Para != nil && walk(it.Para.Items)) {
+				return true
+			}
+		}
+		return false
+	}
+	for _, p := range d.Paras {
+		if walk(p.Items) {
+			return true
+		}
+	}
+	return false
 }
 
 // Coq term (Css/Whitespace.v `inl`) of the inline content of a paragraph
@@ -590,6 +716,9 @@ func itemsCoq(items []*TItem) []string {
 		case TBr:
 			// br::before { content: '\A'; white-space: pre-line } (tests_ua.css)
 			out = append(out, "IBox [IBox [IText WPreLine [10]]]")
+		case TPageCount:
+			// span > ::before > generated text: one word without white space, whatever its length
+			out = append(out, fmt.Sprintf("IBox [IBox [IText WNowrap %s]]", vlib.Runes(PageCountMark)))
 		case TInlineBlock, TBlockIn:
 			out = append(out, "IAtom")
 		case TFloat, TAbs:
@@ -710,7 +839,7 @@ func (p *TPara) HasText() bool {
 	var walk func(its []*TItem) bool
 	walk = func(its []*TItem) bool {
 		for _, it := range its {
-			if (it.Kind == TText && it.Text != "") || (it.Kind == TSpan && walk(it.Kids)) {
+			if (it.Kind == TText && it.Text != "") || it.Kind == TPageCount || (it.Kind == TSpan && walk(it.Kids)) {
 				return true
 			}
 		}
@@ -733,6 +862,8 @@ func (p *TPara) OwnText() []rune {
 						out = append(out, c)
 					}
 				}
+			case TPageCount:
+				out = append(out, []rune(PageCountMark)...)
 			case TSpan:
 				walk(it.Kids)
 			}
